@@ -6,7 +6,7 @@
 From Coq Require Import ZArith List QArith Qcanon Sorted.
 From Batchie Require Import Lib.Sexp Lib.Num Model.Metrics Model.Synergy Model.Corr
   Proofs.C20Spec Proofs.C20Base Proofs.C20Metrics Proofs.C20Synergy Proofs.C20Corr
-  Generated.SrcSynergy Proofs.C20Source.
+  Generated.SrcSynergy Proofs.C20Source Generated.SrcMetrics Proofs.C20SourceMetrics.
 Import ListNotations.
 
 (* ---- ModelEvaluation ----  e is any evaluation the constructor accepts: n = length P experiments,
@@ -225,6 +225,24 @@ Theorem C20_source_effect_array_def : forall arity sids tids obs,
   src_create_single_treatment_effect_array arity sids tids obs = effect_array_def sids tids obs.
 Proof. exact src_effect_array_is_definition. Qed.
 Print Assumptions C20_source_effect_array_def.
+
+(* models/main.py ModelEvaluation.mse / mse_variance / inter_chain_mse_variance (Generated/SrcMetrics.v), through the
+   translated properties predictions / observations / chain_ids.  e is any object the constructor builds (the hypothesis
+   holds of every reachable ModelEvaluation: __init__ is the only way to make one), m = predictions.shape[1]. *)
+Theorem C20_model_is_source_mse : forall m P o ch nm e,
+  mk_eval m P o ch nm = Ok e -> src_ev_mse e = ev_mse e.
+Proof. exact src_ev_mse_is_model. Qed.
+Print Assumptions C20_model_is_source_mse.
+
+Theorem C20_model_is_source_mse_variance : forall m P o ch nm e,
+  mk_eval m P o ch nm = Ok e -> src_ev_mse_variance e = ev_mse_variance e.
+Proof. exact src_ev_mse_variance_is_model. Qed.
+Print Assumptions C20_model_is_source_mse_variance.
+
+Theorem C20_model_is_source_inter_chain_mse_variance : forall m P o ch nm e,
+  mk_eval m P o ch nm = Ok e -> src_ev_inter_chain_mse_variance m e = ev_inter_chain e.
+Proof. exact src_ev_inter_chain_is_model. Qed.
+Print Assumptions C20_model_is_source_inter_chain_mse_variance.
 
 (* ---- non-vacuity: concrete instances (vm_compute) ---- *)
 Definition q (n : Z) (d : positive) : Qc := Q2Qc (n # d).
